@@ -2387,6 +2387,29 @@ impl<T: PPGEvaluatorStrategy> PPGEvaluator<T> {
         new_signals: &mut Vec<Signal>,
         gen: &Generation,
     ) {
+        let mut visited = HashSet::new();
+        Self::reconsider_delayed_upstreams_inner(
+            dag,
+            jobs,
+            node_idx,
+            new_signals,
+            gen,
+            &mut visited,
+        );
+    }
+
+    fn reconsider_delayed_upstreams_inner(
+        dag: &GraphType,
+        jobs: &mut [NodeInfo],
+        node_idx: NodeIndex,
+        new_signals: &mut Vec<Signal>,
+        gen: &Generation,
+        visited: &mut HashSet<NodeIndex>,
+    ) {
+        // visit every job once, not once per path leading to it
+        if !visited.insert(node_idx) {
+            return;
+        }
         let upstreams = dag.neighbors_directed(node_idx, Direction::Incoming);
         for upstream_idx in upstreams {
             match jobs[upstream_idx as usize].state {
@@ -2395,12 +2418,13 @@ impl<T: PPGEvaluatorStrategy> PPGEvaluator<T> {
                 JobState::Ephemeral(state) => match state {
                     JobStateEphemeral::NotReady(_) => {
                         //new_signals.push(NewSignal!(SignalKind::ConsiderJob,upstream_idx, jobs));
-                        Self::reconsider_delayed_upstreams(
+                        Self::reconsider_delayed_upstreams_inner(
                             dag,
                             jobs,
                             upstream_idx,
                             new_signals,
                             gen,
+                            visited,
                         );
                     }
                     JobStateEphemeral::ReadyButDelayed => {
